@@ -179,8 +179,9 @@ func (k resKind) String() string {
 
 type res struct {
 	kind    resKind
-	node    *node // rFile / rDir
-	viaLink bool  // at least one symbolic link was traversed
+	node    *node   // rFile / rDir
+	viaLink bool    // at least one symbolic link was traversed
+	links   []*node // the symbolic links traversed, in order
 }
 
 func (n *node) realPath() string {
@@ -234,6 +235,7 @@ func (m *model) walk(start *node, path string) res {
 	push(path)
 	links := 0
 	via := false
+	var trav []*node
 	for len(pend) > 0 {
 		c := pend[len(pend)-1]
 		pend = pend[:len(pend)-1]
@@ -259,6 +261,7 @@ func (m *model) walk(start *node, path string) res {
 		if ch.kind == kLink {
 			links++
 			via = true
+			trav = append(trav, ch)
 			if links > maxLinks {
 				return res{kind: rLoop, viaLink: true}
 			}
@@ -271,9 +274,9 @@ func (m *model) walk(start *node, path string) res {
 		cur = ch
 	}
 	if cur.kind == kDir {
-		return res{kind: rDir, node: cur, viaLink: via}
+		return res{kind: rDir, node: cur, viaLink: via, links: trav}
 	}
-	return res{kind: rFile, node: cur, viaLink: via}
+	return res{kind: rFile, node: cur, viaLink: via, links: trav}
 }
 
 // lexClean is Rob Pike's lexical path cleaning (what filepath.Clean does on
@@ -327,4 +330,24 @@ func joinRaw(L, loc string) string {
 		return loc
 	}
 	return rawDir(L) + "/" + loc
+}
+
+// exitLinkKind names the first traversed symbolic link that leads out of
+// root: "absolute-link" (absolute target), "file-link" (the link itself
+// denotes a file) or "dir-link".
+func (m *model) exitLinkKind(r res, root *node) string {
+	for _, l := range r.links {
+		t := m.walk(l.parent, l.target)
+		if (t.kind == rFile || t.kind == rDir) && t.node.under(root) {
+			continue
+		}
+		switch {
+		case strings.HasPrefix(l.target, "/"):
+			return "absolute-link"
+		case t.kind == rFile:
+			return "file-link"
+		}
+		return "dir-link"
+	}
+	return "no-link"
 }
